@@ -90,6 +90,14 @@ def objects():
             ("lambda", ns["K"].sm(1)), ("generator", g), ("coroutine", co), ("async-generator", ag), ("code", ns["plain"].__code__), ("module-code", code),
             ("source-expr", "a + b * 3"), ("source-stmt", "x = 1\nfor i in y:\n    x += i\n"), ("big", ns["big"]), ("manylines", ns["manylines"]),
             ("gen-function", ns["gen"]), ("coro-function", ns["coro"]), ("class-method-function", ns["K"].method)]
+    # two functions whose code objects compare equal on hosts up to 3.10 (same name, first line, code bytes and constants) but whose
+    # line tables differ: anything remembered per code object *value* answers the second with the first one's lines
+    tw = []
+    for src in ("def twin(a):\n    b = a\n\n\n    return b\n", "def twin(a):\n\n\n    b = a\n    return b\n"):
+        n2 = {}
+        exec(compile(src, "<c20>", "exec"), n2)
+        tw.append(n2["twin"])
+    objs += [("twin-a", tw[0]), ("twin-b", tw[1])]
     extra = []
     for name, o in list(objs):
         c = getattr(o, "__code__", None)
